@@ -396,7 +396,7 @@ custom_val = st.one_of(st.integers(-5, 5), st.floats(-10, 10, allow_nan=False), 
 s_conf = st.fixed_dictionaries({"op": st.just("configure"), "form": st.sampled_from(["sps_R", "sps_fs", "R_fs", "sps", "R", "fs", "none", "sps_R", "R_fs"]),
                                 "sps": s_sps, "R": s_R, "float_sps": st.booleans(), "wavelength": st.one_of(st.none(), st.none(), st.floats(1260e-9, 1650e-9)),
                                 "N": st.one_of(st.none(), st.none(), st.integers(1, 64)), "pos": st.booleans(),
-                                "custom": st.one_of(st.none(), st.none(), st.dictionaries(st.sampled_from(["alpha", "beta", "slot_rate", "M", "name", "taps"]), custom_val, max_size=2))})
+                                "custom": st.one_of(st.none(), st.none(), st.dictionaries(st.sampled_from(["alpha", "beta", "slot_rate", "M", "name", "taps", "_span", "_k", "Alpha_2"]), custom_val, max_size=2))})
 s_clean = st.just({"op": "clean"})
 fast_blocks = [b for b in BLOCK_NAMES if b not in SLOW]
 s_call = st.fixed_dictionaries({"op": st.just("call"), "block": st.one_of(st.sampled_from(fast_blocks), st.sampled_from(fast_blocks), st.sampled_from(BLOCK_NAMES)),
